@@ -1,6 +1,7 @@
 import NTV.Proofs.Lemmas.HenselAlg
 import NTV.Proofs.Lemmas.HenselModel
 import NTV.Proofs.Lemmas.PolyModBasics
+import NTV.Proofs.Lemmas.PolyDivremMod
 import NTV.Model.PolyModHensel
 /-! # C11 — Hensel lifting: what is proved so far.
 The conclusion of the property (monic, degrees, congruences modulo p and p^e) is certified on every
@@ -35,5 +36,16 @@ theorem henselLift_full (p q : Int) (c a b u v : List Int)
 theorem exponent_one_unchanged (p : Int) (c : List Int) (factors : List (List Int)) :
     NTV.PolyMod.liftFactorization p 1 c factors = .ok factors := by
   simp [NTV.PolyMod.liftFactorization, NTV.PolyMod.liftSteps, pure, Except.pure]
+
+/-- the division primitive every stage is built on, `poly_divrem(a, b, p)`, satisfies its contract for
+every prime p not dividing lc(b): a ≡ q·b + r (mod p), deg r < deg b, results canonical -/
+theorem division_contract (a b : List Int) (p : Nat) (hp : p.Prime) (ha : a ≠ []) (hb : b ≠ [])
+    (hab : b.length ≤ a.length) (hlc : IsCoprime (NTV.PolyG.lc b) (p : Int)) :
+    NTV.Hensel.PCong p (NTV.PolyG.toPoly a)
+      (NTV.PolyG.toPoly (NTV.PolyMod.polyDivrem a b p).1 * NTV.PolyG.toPoly b +
+        NTV.PolyG.toPoly (NTV.PolyMod.polyDivrem a b p).2) ∧
+    (NTV.PolyMod.polyDivrem a b p).2.length < b.length ∧
+    NTV.PolyG.Canon (NTV.PolyMod.polyDivrem a b p).1 ∧ NTV.PolyG.Canon (NTV.PolyMod.polyDivrem a b p).2 :=
+  NTV.PolyMod.polyDivrem_contract_prime a b p hp ha hb hab hlc
 
 end NTV.C11
